@@ -88,7 +88,7 @@ def _trace(su: Setup) -> list[tuple]:
 
 def _states(su: Setup) -> tuple:
     return (repr(su.pool).replace("Async", "").replace("Guarded", ""),
-            tuple(c.info() for c in su.pool.connections), len(su.pool._requests), len(su.net.open_socks()))
+            tuple(c.info() for c in su.pool.connections), scen.n_requests(su.pool), len(su.net.open_socks()))
 
 
 def sc_fault(is_async: bool, ct: str, k: int, kind: int, drop: int) -> tuple:
